@@ -98,6 +98,20 @@ func main() {
 				panel = append(panel, pe)
 				desc = append(desc, fmt.Sprintf("phase %d shared filter %s cached=%v", phase, spec, pe.cached))
 			}
+			// one shared, unregistered typed filter per arity 0..8 (each arity is separately generated code)
+			for a := 0; a <= 8; a++ {
+				spec := &eng.FSpec{Kind: eng.FZero}
+				if a > 0 {
+					var cands []int
+					for ti, t := range typed.Tuples {
+						if len(t.Comps) == a && t.NewFilter != nil {
+							cands = append(cands, ti)
+						}
+					}
+					spec = &eng.FSpec{Kind: eng.FTyped, Tuple: cands[(c+phase)%len(cands)]}
+				}
+				panel = append(panel, panelEntry{spec: spec, tf: d.BuildTyped(spec)})
+			}
 			// per-goroutine plans are drawn sequentially (the generator is not thread-safe)
 			type step struct {
 				pi     int // panel index or -1 for a private filter
@@ -130,6 +144,18 @@ func main() {
 					s.expect = m.Select(s.spec, s.qrels)
 					s.mode = g.R.Intn(5)
 					plans[gi] = append(plans[gi], s)
+				}
+				// every goroutine also uses three of the per-arity filters, starting at a different arity
+				for k := 0; k < 3; k++ {
+					pi := 6 + (gi+k*3)%9
+					s := step{pi: pi, spec: panel[pi].spec, tf: panel[pi].tf, mode: g.R.Intn(5)}
+					s.expect = m.Select(s.spec, nil)
+					// put it first for some goroutines so that first uses collide
+					if gi%2 == 0 {
+						plans[gi] = append([]step{s}, plans[gi]...)
+					} else {
+						plans[gi] = append(plans[gi], s)
+					}
 				}
 			}
 			holdAll := phase == 1 && G == 64 // all 64 queries open at the same time
